@@ -18,6 +18,8 @@ def run(tier, seed, t0):
     for s in seeds:
         jobs.append(Job("small-s%d" % s, "drv_c17", "optim", "spqlios-fma", ["--seed", s, "--count", 8], timeout=1800))
     jobs.append(Job("large-ks-table", "drv_c17", "optim", "spqlios-fma", ["--seed", seed + 12, "--count", 3 if thorough else 2, "--large", 1], timeout=3600, weight=2))
+    jobs.append(Job("regenerated-from-imported-secret", "drv_c17", "optim", "spqlios-fma", ["--seed", seed + 13, "--count", 8 if thorough else 4, "--origin", 1], timeout=3600))
+    jobs.append(Job("regenerated-from-imported-secret-debug", "drv_c17", "debug", "nayuki-portable", ["--seed", seed + 14, "--count", 2, "--origin", 1], timeout=3600))
     jobs.append(Job("small-nayuki", "drv_c17", "optim", "nayuki-portable", ["--seed", seed + 10, "--count", 4], timeout=1800))
     jobs.append(Job("small-debug", "drv_c17", "debug", "spqlios-fma", ["--seed", seed + 11, "--count", 3], timeout=1800))
     defaults = [(80, seed, 64)] if not thorough else [(80, seed, 8), (80, seed + 1, 8), (128, seed, 8), (128, seed + 1, 8)]
